@@ -182,6 +182,29 @@ pub fn c10(a: &Args) {
         out.count("after_cnf_backed_edit", 1);
         one(&mut out, label, &format!("{text} ({label})"), &mut d, Some(&want), &tmp, r5.next(), i % 2 == 0);
     }
+    // very long node lines (an and-node with 2 000+ children: more than 8 KiB in one line) and many lines
+    for t in [1800u32, 2600] {
+        let lines = vec!["o 1 0".to_string(), "t 2 0".to_string(), "1 2 1 0".to_string(), "1 2 -1 2 0".to_string()];
+        let text = format!("{} (-t {t})", lines.join(" / "));
+        let Ok(d) = guarded(move || ddnnife::parser::distribute_building(lines, Some(t), None)) else { out.fail("load-panic", &text, "load", "panic", "model"); continue };
+        out.eval(Some(text.clone()));
+        out.count("long_line_models", 1);
+        let path = format!("{tmp}/long_saved.nnf");
+        let _ = std::fs::remove_file(&path);
+        if guarded(|| ddnnife::parser::persisting::write_ddnnf_to_file(&d, std::path::Path::new(&path)).map_err(|e| e.to_string())).map(|r| r.is_err()).unwrap_or(true) { out.fail("save-error", &text, "save", "error / panic", "a file"); continue; }
+        let saved: Vec<String> = std::fs::read_to_string(&path).unwrap_or_default().lines().map(|l| l.to_string()).collect();
+        let longest = saved.iter().map(|l| l.len()).max().unwrap_or(0);
+        out.count("longest_saved_line_bytes", longest as u64);
+        match guarded(move || ddnnife::parser::distribute_building(saved, None, None)) {
+            Err(e) => out.fail("reload-panic", &text, "load the saved file", &format!("panic: {e}"), "a model"),
+            Ok(mut r) => {
+                if export_flat(&r) != export_flat(&d) && r.rc() != d.rc() { out.fail("reload-answer-differs", &text, "count after save / reload", &format!("{} bits", r.rc().bits()), &format!("{} bits", d.rc().bits())); }
+                let q = vec![-1i32, t as i32];
+                let mut d2 = d.clone();
+                if r.execute_query(&q) != d2.execute_query(&q) || r.number_of_variables != t { out.fail("reload-answer-differs", &text, &format!("count {:?} / features after save / reload", q), &format!("{} features", r.number_of_variables), &format!("{t} features, same count")); }
+            }
+        }
+    }
     // corpus
     for (path, tf) in corpus(a.thorough()) {
         let p = path.clone();
